@@ -227,6 +227,7 @@ Definition step_call (tb : tables) (pre : string) (f : string) (args : list (pv 
     match args with
     | [PObj o; PStr a] => src_getitem tb o (KStr a)
     | [PObj o; PInt z] => src_getitem tb o (KInt z)
+    | [PObj o; PSub c a] => src_getitem tb o (KSub c a)
     | _ => ([], Exc "TypeError")
     end
   else ([], Exc "NameError").
@@ -235,9 +236,10 @@ Lemma src_getitem_pv : forall tb o k,
   match pv_of_key k with
   | PStr a => src_getitem tb o (KStr a)
   | PInt z => src_getitem tb o (KInt z)
+  | PSub c a => src_getitem tb o (KSub c a)
   | _ => ([], Exc "TypeError")
   end = visible (sandbox_getitem tb o k).
-Proof. intros tb o [a|z]; cbn [pv_of_key]; apply getitem_source_eq_model. Qed.
+Proof. intros tb o [a|z|c a]; cbn [pv_of_key]; apply getitem_source_eq_model. Qed.
 
 (* ================================================================== make_attrgetter(...)(item)
    (default = None, postprocess = None: the plain attribute getter the filters use) *)
@@ -315,7 +317,7 @@ Definition gf_call (tb : tables) (args : list value) (kwargs : list (string * va
   else if String.eqb f "self.get_value" then
     match get_value args kwargs first with
     | Some o => ([], Norm (PObj o))
-    | None => ([], Exc (match first with KInt _ => "IndexError" | KStr _ => "KeyError" end))
+    | None => ([], Exc (match first with KInt _ => "IndexError" | _ => "KeyError" end))
     end
   else step_call tb "self._env" f a.
 Definition gf_step (tb : tables) args kwargs first rest (x : pv value) (en1 : env value) : fres value noev :=
@@ -450,24 +452,17 @@ Section Parts.
   Definition src_prepare_parts (a : attr_arg) : list noev * outcome (pv value) :=
     run value noev pp_globals yes acc_getattr acc_getitem pp_call exn_isa body_prepare_parts [(%(pp_attr)s, attr_pv a)].
 
-  Lemma pp_comp : forall l en,
-    (fix each (l0 : list (pv value)) : res noev (list (pv value)) :=
-       match l0 with
-       | [] => ret noev []
-       | i :: r => bind noev (eval value noev pp_globals yes acc_getattr acc_getitem pp_call exn_isa %(pp_elt)s ((%(pp_var)s, i) :: en))
-                     (fun w => bind noev (each r) (fun ws => ret noev (w :: ws)))
-       end) (map PStr l)
-    = ([], Norm (map pv_of_key (map (fun x => if isdigit x then KInt (to_int x) else KStr x) l))).
-  Proof.
-    intros l en. induction l as [|x r IH]; [reflexivity|].
-    cbn [map]. rewrite IH. cbn. destruct (isdigit x); reflexivity.
-  Qed.
-
   Theorem prepare_parts_source_eq_model : forall a,
     src_prepare_parts a = ([], Norm (PTuple (map pv_of_key (prepare_parts split_dot isdigit to_int a)))).
   Proof.
     intros [|s|z]; unfold src_prepare_parts, body_prepare_parts, run, prepare_parts; cbn -[map]; try reflexivity.
-    rewrite pp_comp. reflexivity.
+    (* the comprehension: structural recursion over the list of parts *)
+    match goal with |- context [?F (map PStr (split_dot s))] =>
+      assert (HF : forall l, F (map PStr l) =
+                             ([], Norm (map pv_of_key (map (fun x => if isdigit x then KInt (to_int x) else KStr x) l))))
+    end.
+    { induction l as [|x r IH]; [reflexivity|]. cbn [map]. cbn -[map] in *. rewrite IH. cbn. destruct (isdigit x); reflexivity. }
+    rewrite HF. reflexivity.
   Qed.
 End Parts.
 
@@ -516,7 +511,7 @@ Proof.
     destruct (as_const tb e) as [o|]; cbn -[src_getitem pv_of_key]; [|reflexivity].
     unfold ac_call, step_call. cbn -[src_getitem pv_of_key].
     pose proof (src_getitem_pv tb o k) as Hk.
-    destruct k as [s|z]; cbn [pv_of_key] in *; cbn -[src_getitem]; rewrite Hk;
+    destruct k as [s|z|c s]; cbn [pv_of_key] in *; cbn -[src_getitem]; rewrite Hk;
       match goal with |- context [sandbox_getitem tb o ?kk] => destruct (sandbox_getitem tb o kk) as [w|w|w| | |[]] end; reflexivity.
   - intros inner. reflexivity.
 Qed.
